@@ -442,15 +442,10 @@ class WriterExtractor:
                         return None
                 # x = None if <field> is None else f(<field>)   /   x = f(<field>) if <field> is not None else None :
                 # x is None exactly when the field is, and otherwise carries the field (through f)
-                if isinstance(v, ast.IfExp) and isinstance(v.test, ast.Compare) and len(v.test.ops) == 1 and isinstance(v.test.comparators[0], ast.Constant) and \
-                        v.test.comparators[0].value is None and isinstance(v.test.ops[0], (ast.Is, ast.IsNot)):
-                    none_arm, val_arm = (v.body, v.orelse) if isinstance(v.test.ops[0], ast.Is) else (v.orelse, v.body)
-                    if isinstance(none_arm, ast.Constant) and none_arm.value is None:
-                        tested = self._src(v.test.left, env, fi)
-                        carried = self._src(val_arm, env, fi)
-                        if tested.kind in ("field", "elem") and carried.kind == tested.kind and carried.path == tested.path:
-                            env[tg.id] = ("src", carried)
-                            return None
+                carried = self._optional_carry(v, env, fi)
+                if carried is not None:
+                    env[tg.id] = ("src", carried)
+                    return None
                 try:
                     val = self.folder.fold(v, fi.module, None, cls_q)
                     env[tg.id] = ("const", val)
@@ -619,6 +614,19 @@ class WriterExtractor:
         self.grammar_into(tcls, f.attr, path, wargs, env)
         return None
 
+    def _optional_carry(self, v: ast.expr, env: Dict[str, Any], fi: FuncInfo):
+        """`None if <field> is None else f(<field>)` / `f(<field>) if <field> is not None else None`: the value is None exactly when
+        the field is, and otherwise carries the field (through f): the source it stands for, or None"""
+        if isinstance(v, ast.IfExp) and isinstance(v.test, ast.Compare) and len(v.test.ops) == 1 and isinstance(v.test.comparators[0], ast.Constant) and \
+                v.test.comparators[0].value is None and isinstance(v.test.ops[0], (ast.Is, ast.IsNot)):
+            none_arm, val_arm = (v.body, v.orelse) if isinstance(v.test.ops[0], ast.Is) else (v.orelse, v.body)
+            if isinstance(none_arm, ast.Constant) and none_arm.value is None:
+                tested = self._src(v.test.left, env, fi)
+                carried = self._src(val_arm, env, fi)
+                if tested.kind in ("field", "elem") and carried.kind == tested.kind and carried.path == tested.path:
+                    return carried
+        return None
+
     def _helper_call(self, c: ast.Call, env: Dict[str, Any], fi: FuncInfo, cls_q: str, assign_to: Optional[str]):
         """A module-level helper that is handed a writer: interpreted in place, with its parameters bound to the
         caller's writer / field sources (a pack loop moved out of a method reads the same)."""
@@ -645,6 +653,10 @@ class WriterExtractor:
             if isinstance(a, ast.Name) and a.id in env:
                 env2[p_] = env[a.id]
             else:
+                oc = self._optional_carry(a, env, fi)
+                if oc is not None:
+                    env2[p_] = ("src", oc)
+                    continue
                 sr = self._src(a, env, fi)
                 if sr.kind in ("field", "elem"):
                     env2[p_] = ("src", sr)
@@ -654,6 +666,12 @@ class WriterExtractor:
                 except Unfoldable:
                     if sr.kind != "unknown":
                         env2[p_] = ("src", sr)
+                    # a computed argument that draws on the object's fields in a way that is not read: the helper would be
+                    # interpreted with a value of unknown origin and the field would look unwritten
+                    mentions_field = any((isinstance(x, ast.Attribute) and isinstance(x.value, ast.Name) and x.value.id == "self") or
+                                         (isinstance(x, ast.Name) and env.get(x.id, ("",))[0] == "src") for x in ast.walk(a))
+                    if mentions_field and sr.kind not in ("field", "elem") and isinstance(a, (ast.IfExp, ast.BoolOp, ast.BinOp, ast.Subscript)):
+                        raise AnalysisError(f"{fi.qualname}:{c.lineno}: argument `{norm(a)[:60]}` of the writer helper {hf.name} is computed from fields in a way the extractor does not follow")
         # parameters left to their defaults
         a_ = hf.node.args
         allp = a_.posonlyargs + a_.args
